@@ -139,6 +139,10 @@ NAMESPACES = {'Lemmas.MiniPyFuel': 'Bridge.Py',
               'Lemmas.RegexMsgBidD': 'Bridge.RegexMsgBid',
               'Translated.MsgParsersA': 'Bridge.Translated.MsgParsers', 'Translated.MsgParsersC': 'Bridge.Translated.MsgParsers',
               'Translated.MsgParsersD': 'Bridge.Translated.MsgParsers', 'Translated.ThreadsMainE': 'Bridge.Translated.MainE',
+              'Lemmas.RegexMsgHandA': 'Bridge.RegexMsgHand', 'Lemmas.RegexMsgHandB': 'Bridge.RegexMsgHand',
+              'Translated.HandParsersA': 'Bridge.Translated.HandParsers', 'Translated.HandParsersB': 'Bridge.Translated.HandParsers',
+              'Translated.HandParsersC': 'Bridge.Translated.HandParsers', 'Translated.HandParsersD': 'Bridge.Translated.HandParsers',
+              'Translated.ThreadsClientHands': 'Bridge.Translated.ClientHands',
               'Translated.HandsPbn': 'Bridge.Translated.HandsPbn', 'Translated.HandsPbnClosed': 'Bridge.Translated.HandsPbn',
               # the theorem families about the translated THREAD programs live in their own namespaces
               'Translated.ThreadsMainA': 'Bridge.Translated.MainA', 'Translated.ThreadsMainB': 'Bridge.Translated.MainB',
